@@ -295,7 +295,7 @@ def check_c19(tier):
         "rule": "every (keyword, text) pair of 3 keywords x the text pool of Codegen.tla is looked up in "
                 "ZWorld::collection() and executed on a fresh World; non-trivial if some definition matched "
                 "(invoked or failed)",
-        "zoo_functions": 26, "attributes": 28,
+        "zoo_functions": 27, "attributes": 29,
         "samples": [{"query": queries[x["id"]], "real": x} for x in results if x["res"] != "notfound"][:6],
         "tlc_sanity": "LiteralsMatchOnlyThemselves, OneDefPerAttribute, NoAmbiguityInZoo hold for the description",
     }
